@@ -555,14 +555,213 @@ static bool runScenario(uint64_t seed, uint64_t idx, int which)
   return true;
 }
 
+// ---- long handlers ----------------------------------------------------------------------------
+// TimerService::stop() drains for at most 5 s before it forces the shutdown, drain(timeout) gives up
+// after its timeout, the wheel's drain stops firing at its timeout. A handler that outlives such a
+// wait must still be waited for by whatever call then claims that the service stopped, nothing may
+// start afterwards, and a schedule() accepted while (or after) the service goes down must not be lost.
+struct LRec
+{
+  std::atomic<uint64_t> id{0}, callNs{0}, retNs{0}, entryNs{0}, exitNs{0};
+  std::atomic<int> fires{0};
+  uint64_t delayMs = 0;
+};
+static const int kLongVariants = 6;
+static bool runLongHandler(uint64_t seed, uint64_t variant)
+{
+  auto &O = vf::out();
+  int v = int(variant % kLongVariants);
+  vf::Rng rng(seed, 9100 + variant);
+  // v: 0 TimerService stop()            long handler 5.6 s (outlives stop()'s 5 s drain)
+  //    1 TimerService drain(300) fails, service keeps running, later stop()      long handler 1.6 s
+  //    2 TimerServicePool(2) stop()     long handler 5.6 s on one service
+  //    3 TimerService destructor        long handler 5.6 s
+  //    4 TimingWheel stop()             long callback 2.5 s
+  //    5 TimingWheel drain(300)         long callback 2.5 s due at the drain
+  static const int longMs[] = {5600, 1600, 5600, 5600, 2500, 2500};
+  const char *names[] = {"timerservice", "timerservice", "timerpool", "timerservice", "wheel1", "wheel1"};
+  const char *hows[] = {"stop", "stop-after-timed-out-drain", "stop", "destructor", "stop", "drain-with-timeout"};
+  std::string N = names[v];
+  std::unique_ptr<TimerService> ts;
+  std::unique_ptr<TimerServicePool> pool;
+  std::unique_ptr<TimingWheel> wheel;
+  TimerServiceConfig cfg;
+  if (v == 0 || v == 1 || v == 3) { ts.reset(new TimerService(cfg, std::make_shared<NullLogger>())); ts->setErrorHandler([](TimerError, const std::string &, int) {}); }
+  else if (v == 2) pool.reset(new TimerServicePool(2, cfg, std::make_shared<NullLogger>()));
+  else { wheel.reset(new TimingWheel(std::chrono::milliseconds(2), 16, 2)); wheel->start(); }
+  std::atomic<bool> gone{false}; // the service object no longer exists (destructor variant)
+  TimerService *tsp = ts.get(); TimerServicePool *poolp = pool.get(); TimingWheel *wheelp = wheel.get();
+  auto sched = [&gone, tsp, poolp, wheelp](uint64_t ms, std::function<void()> fn) -> uint64_t {
+    if (gone.load()) return 0;
+    if (tsp) return tsp->scheduleAfter(std::chrono::milliseconds(ms), std::move(fn));
+    if (poolp) { auto &sv = poolp->getService(); uint64_t id = sv.scheduleAfter(std::chrono::milliseconds(ms), std::move(fn)); return id; }
+    return wheelp->schedule(std::chrono::milliseconds(ms), std::move(fn));
+  };
+  const size_t NREC = 6000;
+  std::vector<std::unique_ptr<LRec>> recs;
+  for (size_t i = 0; i < NREC; i++) recs.emplace_back(new LRec());
+  std::atomic<size_t> nextRec{0};
+  std::atomic<int> inHandlers{0};
+  std::atomic<uint64_t> longEntryNs{0}, longExitNs{0};
+  std::atomic<uint64_t> shutdownCallNs{0}, fenceNs{0}, drainCallNs{0}, drainRetNs{0};
+  auto body = [&inHandlers](LRec *r) {
+    uint64_t t = vf::nowNs();
+    if (r->fires.fetch_add(1) == 0) r->entryNs.store(t);
+    inHandlers.fetch_add(1);
+    r->exitNs.store(vf::nowNs());
+    inHandlers.fetch_sub(1);
+  };
+  auto schedRec = [&](uint64_t ms) {
+    size_t i = nextRec.fetch_add(1);
+    if (i >= NREC) return;
+    LRec *r = recs[i].get();
+    r->delayMs = ms;
+    r->callNs.store(vf::nowNs());
+    uint64_t id = sched(ms, [r, &body]() { body(r); });
+    r->retNs.store(vf::nowNs());
+    r->id.store(id ? id : ~0ull); // ~0 = refused
+  };
+  // the long handler, due at once
+  int lm = longMs[v] + int(rng.below(200));
+  sched(1, [&, lm]() {
+    longEntryNs.store(vf::nowNs());
+    inHandlers.fetch_add(1);
+    vf::sleepMs(double(lm));
+    longExitNs.store(vf::nowNs());
+    inHandlers.fetch_sub(1);
+  });
+  for (int i = 0; i < 2000 && !longEntryNs.load(); i++) vf::sleepMs(0.5);
+  // timers due while the long handler occupies the timer thread, and one far beyond every drain window
+  for (int i = 0; i < 6; i++) schedRec(uint64_t(10 + 40 * i));
+  schedRec(20000);
+  // schedulers keep going until well after the shutdown call has returned
+  std::atomic<bool> stopSched{false};
+  std::vector<std::thread> th;
+  for (int t = 0; t < 2; t++)
+    th.emplace_back([&, t]() {
+      vf::Rng r(seed * 31 + variant, 50 + uint64_t(t));
+      static const uint64_t ds[] = {0, 1, 5, 40, 200};
+      while (!stopSched.load()) { schedRec(ds[r.below(5)]); vf::sleepMs(double(r.range(2, 9))); }
+    });
+  vf::sleepMs(double(rng.range(80, 250)));
+  std::atomic<bool> done{false};
+  std::thread wd([&]() {
+    uint64_t t0 = vf::nowNs();
+    while (!done.load())
+    {
+      vf::sleepMs(5);
+      if (vf::nowNs() - t0 > 90ull * 1000000000ull)
+      {
+        vf::out().viol("C08:" + N + ":shutdown-hang", "stop()/drain() did not return within 90 s (long-handler family, handlers bounded to 6 s)", "{\"long_variant\":" + std::to_string(v) + "}");
+        vf::out().line("{\"t\":\"stopped\",\"at\":" + std::to_string(variant) + "}");
+        vf::out().flush(); fflush(nullptr); _exit(0);
+      }
+    }
+  });
+  bool claimed = true; // the call returned normally / reported success: "the service has stopped"
+  std::string msg;
+  if (v == 1)
+  {
+    drainCallNs.store(vf::nowNs());
+    auto dr = ts->drain(300);
+    drainRetNs.store(vf::nowNs());
+    if (dr.success) O.obs("long_drain_unexpectedly_succeeded"); else O.obs("long_drain_timed_out");
+    // a drain that reported failure leaves the service running: it must keep firing what it accepts
+    vf::sleepMs(double(lm) + 900.0 - double((vf::nowNs() - longEntryNs.load()) / 1000000));
+  }
+  int inAtReturn = 0;
+  shutdownCallNs.store(vf::nowNs());
+  if (v == 0 || v == 1) { auto r = ts->stop(); claimed = r.success; msg = r.message; }
+  else if (v == 2) pool->stop();
+  else if (v == 3) { TimerService *p = ts.get(); gone.store(true); vf::sleepMs(30); shutdownCallNs.store(vf::nowNs()); ts.release(); delete p; }
+  else if (v == 4) wheel->stop();
+  else { auto st = wheel->drain(std::chrono::milliseconds(300)); msg = "fired=" + std::to_string(st.fired) + " remaining=" + std::to_string(st.remaining) + " cancelled=" + std::to_string(st.cancelled); }
+  inAtReturn = inHandlers.load();
+  fenceNs.store(vf::nowNs());
+  done = true; wd.join();
+  uint64_t tookMs = (fenceNs.load() - shutdownCallNs.load()) / 1000000;
+  vf::sleepMs(500); // schedulers go on for a while: everything they get accepted now is "after stop returned"
+  stopSched = true;
+  for (auto &t : th) t.join();
+  vf::sleepMs(450); // > the longest scheduler delay (200 ms): a late start would have happened by now
+  // ---- verdicts
+  uint64_t acceptedBefore = 0, acceptedDuring = 0, acceptedAfter = 0, refused = 0, fired = 0, lostDuring = 0, droppedDue = 0, lateStart = 0, twice = 0, early = 0, judgedDue = 0;
+  LRec *wLost = nullptr, *wAfter = nullptr, *wDrop = nullptr;
+  size_t n = std::min(nextRec.load(), NREC);
+  for (size_t i = 0; i < n; i++)
+  {
+    LRec *r = recs[i].get();
+    uint64_t id = r->id.load();
+    if (!id) continue;
+    if (id == ~0ull) { refused++; continue; }
+    int f = r->fires.load();
+    if (f) fired++;
+    if (f > 1) twice++;
+    if (f && r->entryNs.load() + 1000000 < r->callNs.load() + r->delayMs * 1000000ull - (wheel ? 2000000ull : 0)) early++;
+    if (f && r->entryNs.load() > fenceNs.load()) lateStart++;
+    uint64_t deadline = r->retNs.load() + r->delayMs * 1000000ull;
+    if (r->callNs.load() > fenceNs.load()) { acceptedAfter++; if (!wAfter) wAfter = r; }
+    else if (r->callNs.load() > shutdownCallNs.load()) { acceptedDuring++; if (!f) { lostDuring++; if (!wLost) wLost = r; } }
+    else
+    {
+      acceptedBefore++;
+      // due >= 300 ms before the shutdown call began, on a running service whose timer thread was FREE at the
+      // time (i.e. after the long handler had ended: while it runs nothing else can fire, and what is still
+      // unfired at stop() may be discarded by it): must have fired. A timed-out drain() legitimately cancelled
+      // what lay beyond its window: not judged.
+      bool cancelledByFailedDrain = drainCallNs.load() && r->callNs.load() < drainRetNs.load() && deadline > drainCallNs.load();
+      bool threadFree = longExitNs.load() && deadline > longExitNs.load();
+      if (!f && !cancelledByFailedDrain && threadFree && deadline + 300000000ull < shutdownCallNs.load()) { droppedDue++; if (!wDrop) wDrop = r; }
+      if (threadFree && deadline + 300000000ull < shutdownCallNs.load()) judgedDue++;
+    }
+  }
+  auto det = [&](LRec *r, const std::string &extra) {
+    std::ostringstream d;
+    d << "{\"long_variant\":" << v << ",\"seed\":" << seed << ",\"service\":" << vf::jstr(N) << ",\"how\":" << vf::jstr(hows[v]) << ",\"long_handler_ms\":" << lm
+      << ",\"shutdown_took_ms\":" << tookMs << ",\"message\":" << vf::jstr(msg);
+    if (r) d << ",\"delay_ms\":" << r->delayMs << ",\"schedule_call_rel_shutdown_call_us\":" << (int64_t(r->callNs.load()) - int64_t(shutdownCallNs.load())) / 1000
+             << ",\"schedule_call_rel_shutdown_return_us\":" << (int64_t(r->callNs.load()) - int64_t(fenceNs.load())) / 1000 << ",\"fires\":" << r->fires.load();
+    d << "," << extra << "}";
+    return d.str();
+  };
+  std::string K = "C08:" + N + ":long-handler:" + hows[v];
+  if (claimed)
+  {
+    bool longRunning = longEntryNs.load() && (!longExitNs.load() || longExitNs.load() > fenceNs.load());
+    if (inAtReturn || longRunning) O.viol(K + ":handler-running-after-shutdown", "with a handler outliving the internal drain wait, the call returned while a handler was still executing", det(nullptr, "\"in_handlers_at_return\":" + std::to_string(inAtReturn)));
+    if (lateStart) O.viol(K + ":handler-started-after-shutdown", "a handler started after the call had returned", det(nullptr, "\"count\":" + std::to_string(lateStart)));
+    if (acceptedAfter) O.viol(K + ":accepted-after-shutdown", "schedule returned a valid id after the stop had returned (the timer can never fire)", det(wAfter, "\"count\":" + std::to_string(acceptedAfter)));
+    if (lostDuring) O.viol(K + ":accepted-during-shutdown-never-fired", "schedule returned a valid id while the stop was in progress and the timer never fired", det(wLost, "\"count\":" + std::to_string(lostDuring)));
+  }
+  else O.obs("long_stop_reported_failure");
+  if (droppedDue) O.viol(K + ":timer-dropped", "timer due well before the shutdown call on a running service never fired", det(wDrop, "\"count\":" + std::to_string(droppedDue)));
+  if (twice) O.viol("C08:" + N + ":fired-twice", "one-shot handler ran more than once (long-handler family)", det(nullptr, "\"count\":" + std::to_string(twice)));
+  if (early) O.viol("C08:" + N + ":fired-early", "handler ran before its deadline (long-handler family)", det(nullptr, "\"count\":" + std::to_string(early)));
+  O.obs("long_handler_scenarios"); O.obs(std::string("long_") + N + "_" + hows[v]);
+  O.obs("long_accepted_before", acceptedBefore); O.obs("long_accepted_during_shutdown", acceptedDuring); O.obs("long_refused", refused); O.obs("timers_fired", fired); O.obs("long_due_on_free_thread_judged", judgedDue);
+  O.obsMax("long_shutdown_took_ms_max", tookMs);
+  char sig[160];
+  snprintf(sig, sizeof sig, "long-handler v=%d %s %s during=%d refused=%d", v, N.c_str(), hows[v], acceptedDuring ? 1 : 0, refused ? 1 : 0);
+  O.caseSig(vf::fnv(sig, strlen(sig)));
+  O.sample("{\"kind\":\"long-handler shutdown\",\"sig\":" + vf::jstr(sig) + ",\"shutdown_took_ms\":" + std::to_string(tookMs) + ",\"accepted_before\":" + std::to_string(acceptedBefore) +
+           ",\"accepted_during\":" + std::to_string(acceptedDuring) + ",\"refused\":" + std::to_string(refused) + ",\"fired\":" + std::to_string(fired) + "}");
+  // let a violating tree finish its handlers before the records go away
+  for (int i = 0; i < 8000 && (inHandlers.load() > 0 || (longEntryNs.load() && !longExitNs.load())); i++) vf::sleepMs(1);
+  gone.store(true);
+  ts.reset(); pool.reset(); wheel.reset();
+  return true;
+}
+
 int main(int argc, char **argv)
 {
   vf::Args a(argc, argv);
   uint64_t seed = a.u("seed", 1), from = a.u("from", 0), count = a.u("count", 4);
+  bool longMode = a.u("long", 0) != 0;
   auto &O = vf::out();
   for (uint64_t i = from; i < from + count; i++)
   {
     O.line("{\"t\":\"begin\",\"i\":" + std::to_string(i) + "}");
+    if (longMode) runLongHandler(seed, i); else
     runScenario(seed, i, int(i % 3));
   }
   O.obs("clock_reads_delayed", vf::shim::clockPolicy().delayedReads);
